@@ -1,28 +1,53 @@
 //! C10 / C11: non-fungible CONSECUTIVE flavour (stellar_tokens::non_fungible::consecutive::Consecutive) at the
-//! storage level: bounded HISTORIES from the empty contract state, compared with a plain ownership ghost.
+//! storage level. Built with `--cfg stellar_verif` (the one source hook: ITEMS_IN_BUCKET = 2, IDS_IN_BUCKET = 64,
+//! bucket edges at ids 63|64 and 127|128), model profile cap2 (a bucket is a Vec<u32> of 2 words) + getmux.
 //!
-//! Built with `--cfg stellar_verif` (the one source hook: ITEMS_IN_BUCKET = 2, IDS_IN_BUCKET = 64; bucket
-//! edges at ids 63|64 and 127|128) and the model profile ns24 + cap2 (a bucket is a Vec<u32> of 2 words).
-//!
-//! History: empty storage -> batch_mint(A, n0) -> batch_mint(B, n1) (n0, n1 symbolic in 1..=70, so the ids
-//! reach 140 and both batches may cross a bucket edge) -> k in {1, 2, 3} operations, each a transfer or a
-//! burn of a symbolic id with symbolic `from`/`to` and a symbolic authorization set -> query of a SYMBOLIC
-//! id j. The ghost is a closed formula over (n0, n1, operations): no array.
-//! Storage keys are symbolic (Owner(last id), Owner(id - 1), BurnedToken(id), OwnershipBucket(id / 64)), so
-//! nothing is pre-declared: the model claims slots on `set`; the final check only asserts `!overflow`.
+//! The owner inference (`owner_of`: three nested scans with SYMBOLIC bounds — buckets, items, bits) is out of
+//! reach when inlined several times into one history (measured: 1.3 M SAT variables per call, see the registry
+//! fragment), so the family is COMPOSITIONAL; every link is checked on the real code:
+//!   A  `scan_item_*`     real `find_bit_in_item`  ==  `item_scan_ref` (loop-free), ALL 2^32 x 2^32 inputs.
+//!      `scan_bucket_*`   real `find_bit_in_bucket` == naive reference, vectors of 0..=2 symbolic words.
+//!      (both functions are `pub(crate)`: reached through a second compilation of the SAME source file,
+//!      `consec_src`, a `#[path]` include of /repo's consecutive/storage.rs.)
+//!   B  `owner_of_sound / owner_of_complete`: the real `Consecutive::owner_of` of the library crate (its
+//!      `find_bit_in_item` replaced by `item_scan_ref`, link A)  ==  `owner_of_spec` (loop-free reading of the same
+//!      storage) on an ARBITRARY stored state: counter <= 192, any three buckets, any burned flag, any marker.
+//!   H  histories from the EMPTY contract state: batch_mint(A, n0) -> batch_mint(B, n1) (n0, n1 symbolic in
+//!      1..=70: ids reach 140, both batches may cross a bucket edge) -> k in {1, 2, 3} operations (transfer or burn
+//!      of a symbolic id, symbolic from/to, symbolic authorization) -> query of a SYMBOLIC id, with the real
+//!      batch_mint / transfer / burn / update / set_owner_for_previous_token / set_ownership_in_bucket and
+//!      `Consecutive::owner_of` replaced by `owner_of_spec` (link B). The ghost is a closed formula over
+//!      (n0, n1, operations), not an array.
+//! Storage keys are symbolic (Owner(last id), Owner(id - 1), BurnedToken(id), OwnershipBucket(id / 64)), so the
+//! histories pre-declare nothing: the model claims slots on `set`; the final check only asserts `!overflow`.
+#![cfg(feature = "consecstub")]
 use soroban_sdk::model::{self, world};
 use soroban_sdk::{contracttype, Address, Env, Flat};
 use stellar_tokens::non_fungible::burnable::Burn;
 use stellar_tokens::non_fungible::consecutive::storage::NFTConsecutiveStorageKey as ConsKey;
 use stellar_tokens::non_fungible::consecutive::{Consecutive, ConsecutiveMint};
 use stellar_tokens::non_fungible::sequential;
-use stellar_tokens::non_fungible::{ApprovalData, Base, NFTStorageKey, Transfer};
+use stellar_tokens::non_fungible::{ApprovalData, Approve, Base, NFTStorageKey, Transfer};
 
 use crate::util::*;
 
-/// principals: 0 = A (first batch), 1 = B (second batch), 2 = C (a third party)
+/// second compilation of the library's own source file: the only way to call its `pub(crate)` scan functions
+#[path = "/repo/packages/tokens/src/non_fungible/extensions/consecutive/storage.rs"]
+pub mod consec_src;
+
+/// `NFTSequentialStorageKey` is private to the library; a `#[contracttype]` unit variant is encoded by its name
+/// only, so this mirror is the identical key (checked in `owner_of_sound` through the real getter).
+#[contracttype]
+pub enum SeqKeyMirror {
+    TokenIdCounter,
+}
+
+/// principals: 0 = A (first batch), 1 = B (second batch), 2 = C (third party), 3 = D (spender only)
 pub const NP: u32 = 3;
 pub const MAXB: u32 = 70;
+pub const IDS: u32 = 64;
+/// longest ledger distance the TTL extensions of the family add (30 days)
+pub const EXT: u32 = 30 * 17280;
 
 /// a new host invocation at an arbitrary later ledger: own authorization set, own event log
 pub fn next_invocation() {
@@ -42,6 +67,223 @@ pub fn end_overflow_only() {
     kani::assert(!world().overflow, "MODEL-OVERFLOW: flag set");
 }
 
+// ------------------------------------------------------------------ link A: the bit scans
+/// loop-free reference of `find_bit_in_item`: first set bit at or after `start`, MSB = position 0
+pub fn item_scan_ref(input: Option<u32>, start: u32) -> Option<u32> {
+    match input {
+        None => None,
+        Some(num) => {
+            if start >= u32::BITS {
+                return None;
+            }
+            let m = num & (u32::MAX >> start);
+            if m == 0 {
+                None
+            } else {
+                Some(m.leading_zeros())
+            }
+        }
+    }
+}
+/// the definition itself: smallest position p >= start whose bit (MSB-first) is set
+pub fn naive_first_set_from(word: u32, start: u32) -> Option<u32> {
+    let mut r = None;
+    let mut p: u32 = 0;
+    while p < 32 {
+        if r.is_none() && p >= start && (word >> (31 - p)) & 1 == 1 {
+            r = Some(p);
+        }
+        p += 1;
+    }
+    r
+}
+
+#[kani::proof]
+#[kani::unwind(34)]
+pub fn scan_item_all_inputs() {
+    let word: u32 = kani::any();
+    let start: u32 = kani::any();
+    let some: bool = kani::any();
+    let input = if some { Some(word) } else { None };
+    let got = consec_src::find_bit_in_item(input, start);
+    prop!(got == item_scan_ref(input, start), "C10.consecutive.find_bit_in_item.equals_loop_free_reference");
+    if some {
+        prop!(got == naive_first_set_from(word, start), "C10.consecutive.find_bit_in_item.first_set_bit_at_or_after_start");
+    } else {
+        prop!(got.is_none(), "C10.consecutive.find_bit_in_item.none_for_missing_item");
+    }
+    witness!(got == Some(31), "scan_item.last_bit");
+    witness!(some && got.is_none() && word != 0 && start < 32, "scan_item.only_earlier_bits");
+    witness!(start >= 32, "scan_item.start_out_of_range");
+}
+
+/// `find_bit_in_bucket` on vectors of 0..=CAP (= 2) symbolic words: the definition over the concatenated bitmap
+#[kani::proof]
+#[kani::unwind(5)]
+#[kani::stub(crate::nft_consec::consec_src::find_bit_in_item, crate::nft_consec::item_scan_ref)]
+pub fn scan_bucket_vs_naive() {
+    let e = Env::default();
+    let w0: u32 = kani::any();
+    let w1: u32 = kani::any();
+    let len: u32 = kani::any();
+    kani::assume(len <= 2);
+    let mut v: soroban_sdk::Vec<u32> = soroban_sdk::Vec::new(&e);
+    if len >= 1 {
+        v.push_back(w0);
+    }
+    if len >= 2 {
+        v.push_back(w1);
+    }
+    let start: u32 = kani::any();
+    let got = consec_src::find_bit_in_bucket(v, start);
+    // reference: first set position >= start in w0 ++ w1 (truncated to len words)
+    let mut want: Option<u32> = None;
+    if start < 32 * len {
+        if start < 32 {
+            want = item_scan_ref(Some(w0), start);
+            if want.is_none() && len == 2 {
+                want = item_scan_ref(Some(w1), 0).map(|p| 32 + p);
+            }
+        } else {
+            want = item_scan_ref(Some(w1), start - 32).map(|p| 32 + p);
+        }
+    }
+    prop!(got == want, "C10.consecutive.find_bit_in_bucket.first_set_bit_of_the_bucket_at_or_after_start");
+    witness!(len == 2 && start < 32 && got.is_some() && got.unwrap() >= 32, "scan_bucket.crosses_into_second_item");
+    witness!(len == 2 && start >= 32 && got.is_some(), "scan_bucket.starts_in_second_item");
+    witness!(len == 2 && start >= 64, "scan_bucket.start_out_of_range");
+    witness!(len == 0, "scan_bucket.empty_vector");
+}
+
+// ------------------------------------------------------------------ link B: owner_of == owner_of_spec
+pub fn bucket_scan_ref(w0: u32, w1: u32, from: u32) -> Option<u32> {
+    if from >= IDS {
+        return None;
+    }
+    if from < 32 {
+        if let Some(p) = item_scan_ref(Some(w0), from) {
+            return Some(p);
+        }
+        item_scan_ref(Some(w1), 0).map(|p| 32 + p)
+    } else {
+        item_scan_ref(Some(w1), from - 32).map(|p| 32 + p)
+    }
+}
+/// What `Consecutive::owner_of` computes, as a loop-free reading of the stored state (domain: counter <= 192,
+/// i.e. buckets 0..=2, every stored bucket a vector of exactly ITEMS_IN_BUCKET = 2 words; outside it the model
+/// overflow flag is raised, never a silent answer). `None` = the library traps.
+pub fn owner_of_spec(e: &Env, id: u32) -> Option<Address> {
+    let next: u32 = e.storage().instance().get(&SeqKeyMirror::TokenIdCounter).unwrap_or(0);
+    if next == 0 {
+        return None;
+    }
+    let last = next - 1;
+    let burned: bool = e.storage().persistent().get(&ConsKey::BurnedToken(id)).unwrap_or(false);
+    if burned || id > last {
+        return None;
+    }
+    if last >= 3 * IDS {
+        model::overflow()
+    }
+    let b0 = id / IDS;
+    let lastb = last / IDS;
+    let mut found: Option<u32> = None;
+    let mut b: u32 = 0;
+    while b < 3 {
+        if found.is_none() && b >= b0 && b <= lastb {
+            if let Some(v) = e.storage().persistent().get::<_, soroban_sdk::Vec<u32>>(&ConsKey::OwnershipBucket(b)) {
+                if v.len() != 2 {
+                    model::overflow()
+                }
+                let from = if b == b0 { id % IDS } else { 0 };
+                if let Some(p) = bucket_scan_ref(v.get(0).unwrap_or(0), v.get(1).unwrap_or(0), from) {
+                    found = Some(b * IDS + p);
+                }
+            }
+        }
+        b += 1;
+    }
+    match found {
+        None => None,
+        Some(m) => e.storage().persistent().get::<_, Address>(&ConsKey::Owner(m)),
+    }
+}
+/// stand-in for `Consecutive::owner_of` in the histories (justified by link B)
+pub fn owner_of_stub(e: &Env, token_id: u32) -> Address {
+    match owner_of_spec(e, token_id) {
+        Some(a) => a,
+        None => model::trap(200),
+    }
+}
+
+/// an ARBITRARY stored state as far as `owner_of(id)` can see it: counter (absent / 0..=192), BurnedToken(q) for a
+/// symbolic q (absent / true / false), buckets 0..=2 (absent / any two words), one Owner(p) marker at a symbolic p
+/// (absent / any address); every other BurnedToken / Owner key is absent. (owner_of reads exactly one BurnedToken
+/// key and at most one Owner key, so choosing q = id and p = the scanned position covers every stored state.)
+pub fn declare_any_scan_state() {
+    let next: u32 = kani::any();
+    kani::assume(next <= 3 * IDS);
+    model::declare_val(0, 2, &SeqKeyMirror::TokenIdCounter, kani::any(), &next, 0);
+    let q: u32 = kani::any();
+    let bv: bool = kani::any();
+    model::declare_val(1, 0, &ConsKey::BurnedToken(q), kani::any(), &bv, kani::any());
+    let mut b = 0;
+    while b < 3 {
+        let mut v: soroban_sdk::Vec<u32> = soroban_sdk::Vec::new(&Env::default());
+        v.push_back(kani::any());
+        v.push_back(kani::any());
+        model::declare_val(2 + b, 0, &ConsKey::OwnershipBucket(b as u32), kani::any(), &v, kani::any());
+        b += 1;
+    }
+    let p: u32 = kani::any();
+    let o = addr_below(model::NADDR as u32);
+    model::declare_val(5, 0, &ConsKey::Owner(p), kani::any(), &o, kani::any());
+}
+
+/// a normal return of the real owner_of is the specified owner
+#[kani::proof]
+#[kani::unwind(25)]
+#[kani::stub(stellar_tokens::non_fungible::consecutive::storage::find_bit_in_item, crate::nft_consec::item_scan_ref)]
+pub fn owner_of_sound() {
+    setup_world();
+    let e = Env::default();
+    declare_any_scan_state();
+    let id: u32 = kani::any();
+    let want = owner_of_spec(&e, id);
+    let next_by_mirror: u32 = e.storage().instance().get(&SeqKeyMirror::TokenIdCounter).unwrap_or(0);
+    prop!(sequential::next_token_id(&e) == next_by_mirror, "C10.consecutive.owner_of.counter_key_mirror_is_the_library_key");
+
+    let got = Consecutive::owner_of(&e, id);
+
+    prop!(want.is_some(), "C10.consecutive.owner_of.traps_where_the_specification_has_no_owner");
+    prop!(want.is_none() || want.unwrap() == got, "C10.consecutive.owner_of.returns_the_specified_owner");
+    witness!(id / IDS == 0 && next_by_mirror > 2 * IDS && !model::slot(2).present && !model::slot(3).present, "owner_of.marker_two_buckets_ahead");
+    witness!(id % IDS == 63 && model::slot(2).present && id < IDS, "owner_of.last_id_of_bucket_zero");
+    end_checks(6);
+}
+/// wherever the specification names an owner the real owner_of returns (no trap, no panic)
+#[kani::proof]
+#[kani::unwind(25)]
+#[kani::stub(stellar_tokens::non_fungible::consecutive::storage::find_bit_in_item, crate::nft_consec::item_scan_ref)]
+pub fn owner_of_complete() {
+    setup_world();
+    kani::assume(world().seq <= u32::MAX - EXT);
+    let e = Env::default();
+    declare_any_scan_state();
+    let id: u32 = kani::any();
+    let want = owner_of_spec(&e, id);
+    kani::assume(want.is_some());
+    world().must_succeed = true;
+
+    let got = Consecutive::owner_of(&e, id);
+
+    prop!(want.unwrap() == got, "C10.consecutive.owner_of.returns_the_specified_owner");
+    witness!(id >= 2 * IDS, "owner_of.third_bucket");
+    witness!(id < IDS && !model::slot(2).present, "owner_of.first_bucket_absent");
+    end_checks(6);
+}
+
+// ------------------------------------------------------------------ H: histories against the ghost
 #[derive(Clone, Copy)]
 pub struct Op {
     pub burn: bool,
@@ -49,8 +291,7 @@ pub struct Op {
     pub from: u32,
     pub to: u32,
 }
-pub fn arb_op() -> Op {
-    let burn: bool = kani::any();
+pub fn arb_op(burn: bool) -> Op {
     let id: u32 = kani::any();
     let from: u32 = kani::any();
     let to: u32 = kani::any();
@@ -144,7 +385,7 @@ pub fn run_op(e: &Env, g: &Ghost, k: usize) {
     prop!(sequential::next_token_id(e) == g.n0 + g.n1, "C10.consecutive.step.id_counter_unchanged_by_transfer_or_burn");
 }
 
-/// query of a symbolic id and of the three balances against the ghost
+/// query of a symbolic id and of a symbolic principal's balance against the ghost
 pub fn query_sound(e: &Env, g: &Ghost, k: usize) {
     next_invocation();
     let a = addr_below(NP);
@@ -157,55 +398,33 @@ pub fn query_sound(e: &Env, g: &Ghost, k: usize) {
     prop!(want.is_none() || o.id == want.unwrap(), "C10.consecutive.history.owner_of_equals_ghost_owner");
 }
 
-/// loop-free reference of `find_bit_in_item` (first set bit at or after `start`, MSB = position 0)
-pub fn item_scan_ref(input: Option<u32>, start: u32) -> Option<u32> {
-    match input {
-        None => None,
-        Some(num) => {
-            if start >= u32::BITS {
-                return None;
+macro_rules! history {
+    ($name:ident, $two:expr, $k:expr, [$b0:expr, $b1:expr, $b2:expr]) => {
+        #[kani::proof]
+        #[kani::unwind(25)]
+        #[kani::stub(stellar_tokens::non_fungible::consecutive::Consecutive::owner_of, crate::nft_consec::owner_of_stub)]
+        pub fn $name() {
+            setup_world();
+            let e = Env::default();
+            let (n0, n1) = mint_two(&e, $two);
+            let g = Ghost {
+                n0,
+                n1,
+                ops: [arb_op($b0), if $k >= 2 { arb_op($b1) } else { NOOP }, if $k >= 3 { arb_op($b2) } else { NOOP }],
+            };
+            run_op(&e, &g, 0);
+            if $k >= 2 {
+                run_op(&e, &g, 1);
             }
-            let m = num & (u32::MAX >> start);
-            if m == 0 {
-                None
-            } else {
-                Some(m.leading_zeros())
+            if $k >= 3 {
+                run_op(&e, &g, 2);
             }
+            witness!(g.ops[0].id == 63 || g.ops[0].id == 64, "history.first_operation_at_a_bucket_edge");
+            witness!(g.ops[0].id + 1 == n0, "history.first_operation_on_the_last_id_of_batch_one");
+            query_sound(&e, &g, $k);
+            end_overflow_only();
         }
-    }
+    };
 }
-
-#[kani::proof]
-#[kani::unwind(25)]
-pub fn h1_one_batch_one_op() {
-    setup_world();
-    let e = Env::default();
-    let (n0, n1) = mint_two(&e, false);
-    let g = Ghost { n0, n1, ops: [arb_op(), NOOP, NOOP] };
-    run_op(&e, &g, 0);
-    witness!(g.ops[0].burn, "op0.burn");
-    witness!(!g.ops[0].burn && g.ops[0].to != g.ops[0].from, "op0.transfer");
-    query_sound(&e, &g, 1);
-    end_overflow_only();
-}
-
-// ---- probes (development only)
-#[kani::proof]
-#[kani::unwind(25)]
-pub fn p1_mint_only() {
-    setup_world();
-    let e = Env::default();
-    let (n0, _n1) = mint_two(&e, false);
-    witness!(n0 > 64, "crosses");
-    end_overflow_only();
-}
-#[kani::proof]
-#[kani::unwind(25)]
-pub fn p2_mint_query() {
-    setup_world();
-    let e = Env::default();
-    let (n0, n1) = mint_two(&e, false);
-    let g = Ghost { n0, n1, ops: [NOOP, NOOP, NOOP] };
-    query_sound(&e, &g, 0);
-    end_overflow_only();
-}
+history!(h1_t, false, 1, [false, false, false]);
+history!(h1_b, false, 1, [true, false, false]);
